@@ -19,7 +19,9 @@ EXPLANATION = (
     "the blocks read, gap = piece_length - bytes read, update(bytes(gap)) and the padding record of that length under the "
     "same condition gap > 0 (and the pad switch); C03.4 padding hashed <=> padding listed: on every feasible CFG path of "
     "assemble that stores info['pieces'] but not info['files'] (single file: only 'length' is recorded) the pad switch is "
-    "set to the constant False before the traversal, and info['length'] is getsize of the content path.")
+    "set to the constant False before the traversal, and info['length'] is getsize of the content path; C03.5 after assembly "
+    "nothing in the package removes, filters, reorders or replaces info/files, info/pieces or info/length (points-to over the metafile "
+    "dictionary; an order-only copy is accepted).")
 RULE_TEXT = "one obligation per fact of each hybrid creator / hasher and per feasible path of assemble"
 
 
@@ -111,7 +113,7 @@ def run(ctx):
         cname = cq.split(":")[1]
         HF.judge_facts(ctx, "C03.1", cname + "._traverse", EF, {k: CF.SPEC_HYBRID_ENTRIES[k] for k in ("entry", "entry.once", "v1.pieces")}, why="the hybrid layout")
         HF.judge_facts(ctx, "C03.2", cname + "._traverse", EF, {"padding.entry": CF.SPEC_HYBRID_ENTRIES["padding.entry"]}, why="the hybrid layout")
-        HF.judge_facts(ctx, "C03.1", cname + "._traverse", F, {"dir.order": CF.SPEC_TRAVERSE["dir.order"], "leaf": CF.SPEC_TRAVERSE["leaf"]}, why="the hybrid layout")
+        HF.judge_facts(ctx, "C03.1", cname + "._traverse", F, {"entry.call": CF.SPEC_TRAVERSE["entry.call"], "dir.order": CF.SPEC_TRAVERSE["dir.order"], "leaf": CF.SPEC_TRAVERSE["leaf"]}, why="the hybrid layout")
         padding_switch(ctx, cq)
         fresh_keywords(ctx, cq)
     for hq in ("torrentfile.hasher:HasherHybrid", "torrentfile.hasher:FileHasher"):
@@ -126,11 +128,13 @@ def run(ctx):
         if zg is None or zg.value == HF.UND:
             ctx.undecided("C03.3", H.piece_fn, "%s: zero-extension guard not found" % cls.name, cls.name + " :: v1.zero.guard")
         else:
-            atoms = [a for a in zg.value.split(" & ") if not any(x in a for x in ("hybrid", "blocks", "self.end"))]
+            atoms = [a for a in zg.value.split(" & ") if "hybrid" not in a]
             ok = sorted(atoms) == ["gap > 0", "self.pad"]
             ctx.decide("C03.3", H.piece_fn, ok, "%s: zeros are hashed (and the padding record written) iff gap > 0 and the pad switch is on" % cls.name,
                        "%s: zero-extension happens under `%s`; must be `gap > 0 & self.pad`" % (cls.name, " & ".join(atoms)), cls.name + " :: v1.zero.guard")
         # the padding record literal is marked as padding in both
+    from .postassembly import integrity
+    integrity(ctx, "C03.5", {("info", "files"), ("info", "pieces"), ("info", "length")}, "v1 description (file list / piece string / length)")
     from .dynscan import dynamic_features
     dynamic_features(ctx, "C03.0")
 
